@@ -127,6 +127,7 @@ def cg(A: LinearOperator, B: torch.Tensor,
     # get the stopping matrix
     B_norm = B2.norm(dim=-2, keepdim=True)  # (*BB, 1, nc)
     stop_matrix = torch.max(rtol * B_norm, atol * torch.ones_like(B_norm))  # (*BB, 1, nc)
+    noise_matrix = 100 * torch.finfo(B_norm.dtype).eps * B_norm  # residual level of rounding errors
 
     # prepare the initial guess (it's just all zeros)
     x0shape = (ncols, *batchdims, nr, 1) if col_swapped else (*batchdims, nr, ncols)
@@ -169,6 +170,11 @@ def cg(A: LinearOperator, B: torch.Tensor,
             # (the best one in terms of the largest residual might not)
             best_xk = xk_1
             break
+
+        # the columns that have converged to rounding level are frozen (zero
+        # residual, so they are not updated any more) instead of being iterated
+        # further on rounding noise while waiting for the other columns
+        rk_1 = torch.where(resid_norm <= noise_matrix, torch.zeros_like(rk_1), rk_1)
 
         zk_1 = precond_fcn(rk_1)
         rkzk_1 = _dot(rk_1, zk_1)
@@ -257,6 +263,7 @@ def bicgstab(A: LinearOperator, B: torch.Tensor,
     # get the stopping matrix
     B_norm = B2.norm(dim=-2, keepdim=True)  # (*BB, 1, nc)
     stop_matrix = torch.max(rtol * B_norm, atol * torch.ones_like(B_norm))  # (*BB, 1, nc)
+    noise_matrix = 100 * torch.finfo(B_norm.dtype).eps * B_norm  # residual level of rounding errors
 
     # prepare the initial guess (it's just all zeros)
     x0shape = (ncols, *batchdims, nr, 1) if col_swapped else (*batchdims, nr, ncols)
@@ -316,6 +323,11 @@ def bicgstab(A: LinearOperator, B: torch.Tensor,
             # (the best one in terms of the largest residual might not)
             best_xk = xk
             break
+
+        # the columns that have converged to rounding level are frozen (zero
+        # residual, so they are not updated any more) instead of being iterated
+        # further on rounding noise while waiting for the other columns
+        rk = torch.where(resid_norm <= noise_matrix, torch.zeros_like(rk), rk)
 
         rho_k = rho_knew
 
